@@ -16,10 +16,19 @@
    (3) codespan's offset -> (line, column), as used for the terminal header and
        for both ends of a SARIF region, is the usual notion on the ORIGINAL text:
        lines end at LF, columns count characters (CR, tab, multi-byte = 1).
+   (2b) meta provenance: through the desugarer (Proofs.DesugarMetas, C18) and
+       through the SSA construction (Proofs.LabelsSsa over the mirror Model.Ssa:
+       block i of the SSA form = inserted file-less phis + the statements of
+       block i with their metas and kinds, in order).  The lifting mirror
+       Model.Lift has no metas: C04_lift_nodes_are_source_nodes is what it says.
    Observed by the engine `locations` (lib/props/C04.py), not proved: that
    LALRPOP's @L/@R are byte offsets on scalar boundaries (parser_ranges_wellformed),
-   desugar_metas_from_input, the terminal rendering, and that the text under a
-   primary label is the construct the message names. *)
+   that into_cfg copies the meta of the AST node onto the IR node it builds
+   (provenance clause, node by node), expression metas through SSA (the IR
+   mirror has statement metas only), the terminal rendering, and that the text
+   under a primary label is the construct the message names.  The extracted
+   Model.Labels.location / sarif_region are run against the real FileLibrary /
+   sarif_conversion.rs / renderer on bare texts (coq/extract/locations.v and .ml). *)
 From Coq Require Import NArith List Bool PeanoNat String.
 Require Import Model.Base Model.Ir Model.Preprocess Spec.LexSpec Proofs.PreprocessProofs.
 Require Import Model.Labels Gen.LabelSites Proofs.LabelsProofs.
